@@ -71,6 +71,13 @@ func runC10(r *Run) {
 		return []frontend.Variable{chip.TwoToOne(l, rr)}, []*ref.N{fc.rb.BNTwoToOne(fc.rb.BNPermUF(), rl, rrr)}
 	}})
 	var stats []any
+	// the same cases once more in alias mode (api.MulAcc extends its accumulator in place): the hash
+	// code accumulates with MulAcc throughout
+	for _, c := range append([]fieldCase{}, cases...) {
+		c.alias = true
+		c.name += " (alias mode)"
+		cases = append(cases, c)
+	}
 	for i, c := range cases {
 		var hooks map[string]hookFn
 		if i > 0 {
